@@ -22,7 +22,13 @@ FIELD_KINDS = ["scalar", "scalar+constraints", "scalar+constraints+nullable", "s
                "ref-to-constant+optional", "ref-to-constant-other-package+nullable", "ref-to-constant-via-alias",
                "constant_ref", "array", "map", "struct", "enum+default", "disj", "inter", "slot", "ref-unresolved",
                "scalar+constraints+operator-repeated", "array+default+empty-collection", "ref-to-struct+default+empty-collection",
-               "scalar+constraints+default", "scalar+default+nullable"]
+               "scalar+constraints+default", "scalar+default+nullable",
+               # constants that are not non-empty strings, held by the loaders in a Go type that is not the kind's own, falsy
+               "ref-to-constant+float64-held-as-int64", "ref-to-constant-other-package+uint8-held-as-int64",
+               "ref-to-constant-via-alias+float32-held-as-float64", "ref-to-constant+int32-held-as-int", "ref-to-constant+bool",
+               "ref-to-constant+bool+falsy", "ref-to-constant+falsy+int64", "ref-to-constant+falsy", "constant+float64-held-as-int64",
+               "constant+falsy+uint8-held-as-int64", "constant+bool+falsy", "constant+falsy", "ref-to-constant+bool+falsy+optional",
+               "ref-to-constant-other-package+nullable+uint8-held-as-int64"]
 OBJECT_KINDS = ["struct", "alias-of-struct", "alias-chain-of-struct", "alias-chain-crossing-packages-of-struct",
                 "alias-chain-crossing-packages-of-scalar", "alias-of-enum", "alias-of-constant", "alias-of-array",
                 "enum", "scalar", "constant", "array", "map", "disj"]
@@ -55,6 +61,8 @@ def judge(ctx, tlc_out, cov):
     for sig, agg in s["signatures"].items():
         ex = agg["examples"][0]
         what = {k: v for k, v in ex.items() if k not in ("S", "real")}
+        if isinstance(what.get("case"), dict):
+            what["case"] = {k: v for k, v in what["case"].items() if k != "input"}     # the pipeline's input is in the replay file
         ctx.failures.append({"signature": sig, "what": "%s (x%d)" % (json.dumps(what)[:500], agg["count"]),
                              "replay": {"case": ex.get("case"), "S": ex["S"]}})
     cov.setdefault("tlc_trace", []).extend(trs)
@@ -65,8 +73,21 @@ def replay(ctx):
     rp = json.load(open(ctx.replay))
     want_sig = rp["signature"]
     ctx.build_worker()
-    # Derive(S) and the modes for the stored schema set come from TLC again
     d = ctx.sub("replay16")
+    inp = (rp["replay"].get("case") or {}).get("input") if isinstance(rp["replay"].get("case"), dict) else None
+    if inp:
+        # a pipeline case: the stored input goes through the real Pipeline.ContextForLanguage again; what it returns is judged
+        casep = os.path.join(d, "casep.out")
+        open(casep, "w").write(bc.tlc_line("CASEP", inp))
+        given = os.path.join(d, "given.ndjson")
+        ps = json.loads(ctx.run_worker(["c16-pipeline", "-in", casep, "-out", given]))
+        if ps["written"] != 1:
+            raise core.Inconclusive("replay: the pipeline did not return a result for the stored input: %s" % ps)
+        r = ctx.run_tlc("BuildersGivenMC", "BuildersGivenMC.cfg", workers=1, timeout=600, files={"given.ndjson": given})
+        judge(ctx, r["out"], {})
+        ctx.failures = [f for f in ctx.failures if f["signature"] == want_sig]
+        return ctx.finish("model_checking", {"evaluations": 1, "distinct_nontrivial": 0}, [])
+    # Derive(S) and the modes for the stored schema set come from TLC again
     sj = os.path.join(d, "S.json")
     json.dump(rp["replay"]["S"], open(sj, "w"))
     r = ctx.run_tlc("BuildersReplayMC", "BuildersReplayMC.cfg", workers=1, timeout=600, files={"S.json": sj})
@@ -160,12 +181,21 @@ def run(ctx):
     ps = json.loads(ctx.run_worker(["c16-pipeline", "-in", r["out"], "-out", given]))
     if ps["written"] == 0 or ps["written"] + ps["rejected"] != r["distinct"]:
         raise core.Inconclusive("pipeline universe: %s for %d TLC states" % (ps, r["distinct"]))
+    # schemas as the real loaders produce them (JSON Schema, CUE): references to / in-place constants of every scalar kind the
+    # loaders yield, held in the Go types the loaders give them; judged like the pipeline's results (they carry their builders)
+    loaded = os.path.join(ctx.scratch, "c16-loaded.ndjson")
+    ls = json.loads(ctx.run_worker(["c16-loaded", "-out", loaded]))
+    if ls["written"] != 2:
+        gate(ctx, "loaded universe: the real loaders did not return the two schemas: %s" % ls)
+    with open(given, "a") as fo:
+        fo.write(open(loaded).read())
     r2 = ctx.run_tlc("BuildersGivenMC", "BuildersGivenMC.cfg", workers=1, timeout=900, files={"given.ndjson": given})
     tlcs.append(r2)
     s, nf = judge(ctx, r2["out"], cov)
     tlc_failed += nf
     merge(total, s)
-    per_universe["pipeline"] = {"cases": ps["cases"], "judged": s["cases"], "rejected_by_pipeline": ps["rejected"]}
+    per_universe["pipeline"] = {"cases": ps["cases"], "judged": s["cases"] - ls["written"], "rejected_by_pipeline": ps["rejected"]}
+    per_universe["loaded"] = {"cases": 2, "judged": ls["written"]}
     for k, v in ps["observations"].items():
         total["observations_for_other_properties"][k] = total["observations_for_other_properties"].get(k, 0) + v
     if not quick:
@@ -198,11 +228,17 @@ def run(ctx):
         "distinct_nontrivial": judged,
         "rule": "one evaluation = one schema set (a TLC state) on which the real BuilderGenerator.FromAST ran and was compared, conjunct by "
                 "conjunct, with Derive(S), and whose real result was judged again by TLC (C16Violated). Universe 'pairs': object Main with one "
-                "field kind or an ordered pair of two of 36 field kinds x 7 surroundings (plain; alias chains whose second hop crosses into a "
+                "field kind or an ordered pair of two of 39 field kinds x 7 surroundings (plain; alias chains whose second hop crosses into a "
                 "loaded second package next to same-named objects of another kind; aliases of structs / alias chains / aliases of enums and "
-                "constants declared before their targets; non-struct objects; second package not loaded; alias of an unloaded object)%s. "
-                "Universe 'pipeline': 2 schema sets x 7 lists of final passes (prefix_objects_names, retype_field, omit, rename_object, omit_fields) x 5 "
-                "languages through the real codegen.Pipeline.ContextForLanguage: the builders it returns against the schemas it returns. "
+                "constants declared before their targets; non-struct objects; second package not loaded; alias of an unloaded object), next to "
+                "object Fixed in every set: required references to / in-place constants of kinds float64, uint8, float32, int32, bool, int64, "
+                "string whose value is held in the Go type the loaders produce (int64 in a float64, int in an int32 ...) or is falsy%s. "
+                "Universe 'pipeline': 4 schema sets (one package; two packages; three packages with structs written in place in each, "
+                "declared in both orders) x 7 lists of final passes (prefix_objects_names, retype_field, omit, rename_object, omit_fields) x 5 "
+                "languages through the real codegen.Pipeline.ContextForLanguage: the builders it returns against the schemas it returns, "
+                "one builder per object (an object is identified by its own reference). Universe 'loaded': a JSON Schema and a CUE text "
+                "with required references to / in-place constants (number, integer, boolean, string; zero, false; through an alias) through "
+                "the real loaders, then the real FromAST: binds the value representations the other universes state to the loaders. "
                 "Non-trivial = judged (schema sets with a dangling object-level alias make FromAST panic and are out of scope: C05 guarantees "
                 "resolvable references)" % (
                     "" if quick else "; thorough adds 'chains' (reference chains of 1..4 hops over three packages, third loaded or not, hop names "
